@@ -68,7 +68,11 @@ _DEF_ALPHABET = st.one_of(
 
 
 def _definition():
-    return st.one_of(st.just(''), st.text(alphabet=_DEF_ALPHABET, max_size=12).map(str.strip))
+    plain = st.text(alphabet=_DEF_ALPHABET, max_size=12).map(str.strip)
+    # a cell that a CSV dialect would treat as quoted: the index format has no quoting at all
+    quoted = st.builds(lambda h, t: (h + t).strip(),
+                       st.sampled_from(['"', '"x" y', '"x', '""', "'", '"x""y"']), plain)
+    return st.one_of(st.just(''), plain, plain, quoted)
 
 
 # ---------------------------------------------------------------------------
@@ -565,6 +569,9 @@ def _classify(case):
     if 'definition' in index['cols'] and any(ord(c) > 127 for r in index['rows']
                                              for c in r['definition']):
         tags.append('non-ascii-definition')
+    if 'definition' in index['cols'] and any(r['definition'][:1] in ('"', "'")
+                                             for r in index['rows']):
+        tags.append('definition-starts-with-quote')
     if 'status' in index['cols']:
         for r in index['rows']:
             tags.append('status:' + r['status'])
@@ -624,7 +631,8 @@ SUBS = [
                       'index-first', 'index-twice', 'header:upper', 'header:lower',
                       'eol:crlf', 'eol:lf', 'cols:status+definition', 'cols:status',
                       'cols:definition', 'status:zz', 'spurious-ilidef-on-listed', 'proposed',
-                      'empty-definition', 'repeated-id', 'ili-shared-by-lexicons')),
+                      'empty-definition', 'repeated-id', 'ili-shared-by-lexicons',
+                      'definition-starts-with-quote')),
     # an index that has neither a status nor a definition column (ids only)
     Sub('ids-only-index', oracle, _classify, strategy=_strategy_one_column,
         budget={'quick': 4, 'thorough': 10}, fingerprint=_fp, sample=_sample),
